@@ -294,6 +294,12 @@ impl<'s> Scheduler<'s> {
                 let co_id = coroutine.id;
                 if CANCEL_COROUTINES.contains(&co_id) {
                     _ = CANCEL_COROUTINES.remove(&co_id);
+                    // Report the cancellation to the listeners before the coroutine is dropped
+                    // (Ready/Suspend -> Running -> Cancelled, without running the body), otherwise
+                    // e.g. a pool never learns that one of its workers is gone.
+                    if coroutine.running().is_ok() {
+                        _ = coroutine.cancel();
+                    }
                     warn!("Cancel coroutine:{} successfully !", co_id);
                     continue;
                 }
